@@ -142,10 +142,10 @@ pub(crate) const ISLAMIC_UMALQURA_ERA: EraInfo =
 pub(crate) const HEISEI_ERA: EraInfo = valid_era!("heisei", 1..=31);
 pub(crate) const JAPANESE_ERA: EraInfo = valid_era!("japanese", 1..=1868);
 pub(crate) const JAPANESE_INVERSE_ERA: EraInfo = valid_era!("japanese-inverse", 1..=i32::MAX);
-pub(crate) const MEJEI_ERA: EraInfo = valid_era!("mejei", 1..=45);
+pub(crate) const MEIJI_ERA: EraInfo = valid_era!("meiji", 1..=45);
 pub(crate) const REIWA_ERA: EraInfo = valid_era!("reiwa", 1..=i32::MAX);
 pub(crate) const SHOWA_ERA: EraInfo = valid_era!("showa", 1..=64);
-pub(crate) const TAISHO_ERA: EraInfo = valid_era!("showa", 1..=45);
+pub(crate) const TAISHO_ERA: EraInfo = valid_era!("taisho", 1..=15);
 pub(crate) const PERSIAN_ERA: EraInfo = valid_era!("persian", i32::MIN..=i32::MAX);
 pub(crate) const ROC_ERA: EraInfo = valid_era!("roc", 1..=i32::MAX);
 pub(crate) const ROC_INVERSE_ERA: EraInfo = valid_era!("roc-inverse", 1..=i32::MAX);
